@@ -11,6 +11,7 @@ trap cleanup EXIT
 cd "$W" || exit 9
 mkdir -p _seed; cp -r "$SRC"/* _seed/ 2>/dev/null; rm -rf _seed/_demo_build _seed/_cfg
 LOG=/tmp/cs/$NAME.log; : > "$LOG"
+cmake -G Ninja -B _build -DCMAKE_BUILD_TYPE=RelWithDebInfo . >/dev/null 2>&1      # some demos take InovesaConfig.hpp from the configured build directory
 bash _seed/build_demo.sh >>"$LOG" 2>&1; P0=$?
 echo "demo pristine exit=$P0" | tee -a "$LOG"
 (git apply _seed/patch.diff 2>/dev/null || patch -p1 --fuzz=3 --no-backup-if-mismatch < _seed/patch.diff >>"$LOG" 2>&1) || { echo "PATCH DOES NOT APPLY" | tee -a "$LOG"; exit 3; }
